@@ -291,6 +291,9 @@ type GbnScenario struct {
 	StaticEP [2]time.Duration `json:"static_per_endpoint,omitempty"`
 	// receivers call Recv with this deadline and simply call again when it expires
 	RecvTimeout time.Duration `json:"recv_timeout,omitempty"`
+	// TmFreq > 0: WithTimeoutUpdateFrequency (after how many round-trip samples the adaptive resend
+	// timeout is recomputed)
+	TmFreq int `json:"tm_freq,omitempty"`
 }
 
 type RandFault struct {
@@ -369,6 +372,9 @@ func (sc *GbnScenario) optsFor(ep int) []gbn.Option {
 	}
 	if sc.PingNs > 0 {
 		to = append(to, gbn.WithKeepalivePing(time.Duration(sc.PingNs), time.Duration(sc.PongNs)))
+	}
+	if sc.TmFreq > 0 {
+		to = append(to, gbn.WithTimeoutUpdateFrequency(sc.TmFreq))
 	}
 	o := []gbn.Option{gbn.WithTimeoutOptions(to...)}
 	if sc.MaxChunk > 0 && !(ep >= 0 && sc.NoChunkEP[ep]) {
